@@ -54,6 +54,15 @@ async def _run(prop, args, acc, ctx):
     budget = float(os.environ.get("VERIF_BUDGET_S", prop.budget_s[args.tier]))
     await prop.setup(ctx)
     try:
+        from .tour import Tour
+
+        tour = Tour(args.shard, acc) if prop.tour and not args.replay else None
+        if tour:
+            tour.noisy = prop.tour_noisy
+        if tour and args.shard % 4 == 2:
+            # in these workers the rest of the application comes first of all (before the two-thread probes use anything)
+            await tour.all_legs(order="udp-first" if args.shard % 8 == 2 else "tcp-first")
+            acc.count("tour_before_anything_else")
         pairs = (lambda: prop.thread_pairs(ctx)) if type(prop).thread_pairs is not type(prop).__mro__[-2].thread_pairs else None
         if pairs:
             # before anything else uses the library in this process: two OS threads, every switch point of the first call
@@ -62,11 +71,17 @@ async def _run(prop, args, acc, ctx):
             with warnings.catch_warnings():
                 await asyncio.get_running_loop().run_in_executor(None, threadops.run_pairs, acc, pairs, args.shard, args.nshards)
         crowd = _crowd(acc)      # (after the first-use probes)
+        # the rest of the application (vf/tour.py): every other feature of the library, used in the same process
+        if tour and args.shard % 4 == 0:
+            await tour.all_legs()     # in these workers every feature has been used before the check's first case
+            acc.count("tour_before_the_first_case")
         if args.replay:
             cases = [json.load(open(args.replay))["case"]]
         else:
             cases = prop.cases(args.tier, args.seed, args.shard, args.nshards)
         is_async = inspect.iscoroutinefunction(prop.run_case)
+        if tour and is_async and args.shard % 3 != 1:
+            tour.start_background()    # ... and keeps being used while the check runs (not in every worker: undisturbed runs stay covered)
         n = 0
         for case in cases:
             acc.case = case
@@ -81,10 +96,14 @@ async def _run(prop, args, acc, ctx):
                 else:
                     prop.run_case(case, acc, ctx)
             n += 1
+            if tour and n % prop.tour_every == 3:
+                await tour.next_leg(direct=True)
             if (n & 15) == 0 and env.REAL_MONOTONIC() - t0 > budget:
                 acc.count("truncated_by_budget")
                 break
         acc.case = None
+        if tour:
+            await tour.close()
         prop.finish(acc, ctx)
         acc.count("idle_periods_of_virtual_real_time", env.idle_jumps())
     finally:
